@@ -47,7 +47,7 @@ class St:
 
 class Tr:
     __slots__ = ('i', 'src', 'tgt', 'event', 'prio', 'guard', 'sends', 'pre', 'post', 'inv', 'bump',
-                 'tg_after', 'tg_idle', 'tobs', 'gform')
+                 'tg_after', 'tg_idle', 'tobs', 'gform', 'tinv_idle')
 
     def __init__(self, i, src, tgt, event, prio, guard):
         self.i = i
@@ -65,10 +65,12 @@ class Tr:
         self.tg_idle = None
         self.tobs = False
         self.gform = False      # guard written in the event-free form P.g(i)
+        self.tinv_idle = None   # argument of idle() in a transition invariant (set by C13 only)
 
     def as_tuple(self):
         return (self.i, self.src, self.tgt, self.event, self.prio, self.guard, tuple(self.sends),
-                tuple(self.pre), tuple(self.post), tuple(self.inv), self.bump, self.tg_after, self.tg_idle, self.tobs, self.gform)
+                tuple(self.pre), tuple(self.post), tuple(self.inv), self.bump, self.tg_after, self.tg_idle, self.tobs, self.gform) + \
+            ((self.tinv_idle,) if self.tinv_idle is not None else ())
 
 
 class Spec:
@@ -190,6 +192,7 @@ class Cfg:
         self.time_obs = False     # code logs `time`; states carry time-aware invariants
         self.anon = False         # code also sends events without any distinguishing parameter (equal by value)
         self.echo = False         # some guards use the event-free form and their text doubles as entry/exit code of a state
+        self.neg_delays = False   # sends also use negative delays
         self.nested_names = False  # names from NESTED_POOL (drawn by swarm in one run out of six)
         self.sentconds = False    # a third of the contract conditions also log sent('na'), sent('ea'), received('ea')
         self.brace = False        # some guard texts contain braces (they end up in error messages and exports)
@@ -371,6 +374,8 @@ EXT = 5000      # contract conditions with an id >= EXT use the extended form (s
 def decorate(sp, st, cfg, events):
     """sends / notify / context updates / contracts / time-aware guards"""
     delays = [None, None, 0, 1, 2, 2, 5] if cfg.delays else [None]
+    if cfg.delays and cfg.neg_delays:
+        delays = delays + [-1, -4]       # legal: the event is due since before it was sent
 
     def some_sends():
         out = []
@@ -509,6 +514,10 @@ def guard_code(t):
     return 'P.guard(%d, event)' % t.i
 
 
+def ttinv_code(i, d):
+    return 'P.ttinv(%d, idle(%r), time)' % (i, d)
+
+
 def tpost_code(j, a):
     return 'P.tpost(%d, after(%r), time)' % (j, a)
 
@@ -518,14 +527,16 @@ def tinv_code(j, a, i):
                                           'idle(%r)' % i if i is not None else 'None')
 
 
-def cond_code(j, kind, owner_is_transition, with_old):
-    """contract condition j. kind: 'pre' | 'post' | 'inv'.  __old__ is only available in post/inv."""
+def cond_code(j, kind, owner_is_transition, with_old, owner=None):
+    """contract condition j. kind: 'pre' | 'post' | 'inv'.  __old__ is only available in post/inv.  The extended form of a
+    state's condition also logs active(<that state>)"""
     old = '__old__' if (with_old and kind != 'pre') else 'None'
     if old == '__old__' and j % 3 == 1:
         old = '(lambda: __old__)()'      # a reference from a nested scope is a reference too
     ev = 'event' if owner_is_transition else 'None'
     if j >= EXT:
-        return "P.cond(%d, v, %s, %s, sent('na'), sent('ea'), received('ea'))" % (j, old, ev)
+        own = ', active(%r)' % owner if (owner is not None and not owner_is_transition) else ''
+        return "P.cond(%d, v, %s, %s, sent('na'), sent('ea'), received('ea')%s)" % (j, old, ev, own)
     return 'P.cond(%d, v, %s, %s)' % (j, old, ev)
 
 
@@ -553,9 +564,9 @@ def _state_obj(model, s, with_old=True):
         o = model.ShallowHistoryState(s.name, memory=s.memory, **kw)
     else:
         o = model.DeepHistoryState(s.name, memory=s.memory, **kw)
-    o.preconditions.extend(cond_code(j, 'pre', False, with_old) for j in s.pre)
-    o.postconditions.extend(cond_code(j, 'post', False, with_old) for j in s.post)
-    o.invariants.extend(cond_code(j, 'inv', False, with_old) for j in s.inv)
+    o.preconditions.extend(cond_code(j, 'pre', False, with_old, s.name) for j in s.pre)
+    o.postconditions.extend(cond_code(j, 'post', False, with_old, s.name) for j in s.post)
+    o.invariants.extend(cond_code(j, 'inv', False, with_old, s.name) for j in s.inv)
     o.invariants.extend(tinv_code(j, a, i) for j, a, i in s.tinv)
     o.postconditions.extend(tpost_code(j, a) for j, a in s.tpost)
     return o
@@ -567,6 +578,8 @@ def _trans_obj(model, t, with_old=True):
     o.preconditions.extend(cond_code(j, 'pre', True, with_old) for j in t.pre)
     o.postconditions.extend(cond_code(j, 'post', True, with_old) for j in t.post)
     o.invariants.extend(cond_code(j, 'inv', True, with_old) for j in t.inv)
+    if t.tinv_idle is not None:
+        o.invariants.append(ttinv_code(t.i, t.tinv_idle))
     return o
 
 
@@ -600,12 +613,15 @@ def to_dict(sp, order=None, name='gen'):
     state's transition list."""
     def cond_list(o, is_t):
         out = []
-        out += [{'before': cond_code(j, 'pre', is_t, True)} for j in o.pre]
-        out += [{'after': cond_code(j, 'post', is_t, True)} for j in o.post]
-        out += [{'always': cond_code(j, 'inv', is_t, True)} for j in o.inv]
+        own = None if is_t else o.name
+        out += [{'before': cond_code(j, 'pre', is_t, True, own)} for j in o.pre]
+        out += [{'after': cond_code(j, 'post', is_t, True, own)} for j in o.post]
+        out += [{'always': cond_code(j, 'inv', is_t, True, own)} for j in o.inv]
         if not is_t:
             out += [{'always': tinv_code(j, a, i)} for j, a, i in o.tinv]
             out += [{'after': tpost_code(j, a)} for j, a in o.tpost]
+        elif o.tinv_idle is not None:
+            out += [{'always': ttinv_code(o.i, o.tinv_idle)}]
         return out
 
     def st(n):
